@@ -87,6 +87,15 @@ def run(ctx):
         sess = markers.Session(h)
         keys = markers.Keys(sess.p)
         regs, steps = c02.build_history(ctx, sess, 120 if quick else 300, 300 if quick else 1200, battery=(rd == 0))
+        if rd == 0:
+            # one comparison for every key with every operator (both operand orders, decorated version literals), each also negated
+            for t in markers.op_key_grid(deprecated=True):
+                ra, _ = sess.parse(t)
+                if ra is not None:
+                    regs.append(ra)
+                    rn, _ = sess.op('not', ra)
+                    if rn is not None:
+                        regs.append(rn)
         extend_history(ctx, sess, regs, 150 if quick else 600)
         _, more = c02.build_history(ctx, sess, 0, 0)
         # monitor
